@@ -1902,6 +1902,23 @@ impl XmlDocumentTypeDeclaration {
                     }
                     parser::DeclarationMarkup::Entity(v) => match v {
                         parser::DeclarationEntity::GeneralEntity(v) => {
+                            // Character references in an entity value are expanded
+                            // when the declaration is read (WFC: Legal Character).
+                            if let parser::DeclarationEntityDef::EntityValue(values) = &v.def {
+                                for value in values {
+                                    if let parser::EntityValue::Reference(
+                                        parser::Reference::Character(v, radix),
+                                    ) = value
+                                    {
+                                        match radix {
+                                            10 => char_from_char10(v)?,
+                                            16 => char_from_char16(v)?,
+                                            _ => unreachable!(),
+                                        };
+                                    }
+                                }
+                            }
+
                             let entity = XmlEntity::node(v, declaration_id, context);
                             declaration.borrow_mut().push_child(entity);
                         }
